@@ -93,8 +93,19 @@ pub struct DataFile {
 // shared by the `validate` and `validate_data` groups (C06): what "some (rules file, data file) evaluation was FAIL" means.
 // file_sem: the file status eval_rules_file computes for a rules file on one document (uninterpreted; C01 / C02 are about it)
 // merged:   PathAwareValue::merge of the --input-parameters payload with a data file (uninterpreted; C17 is about it)
+pub mod validate_model {
+use vstd::prelude::*;
+use super::*;
 pub uninterp spec fn file_sem(rules: RulesFile, doc: PathAwareValue) -> Status;
 pub uninterp spec fn merged(a: PathAwareValue, b: PathAwareValue) -> PathAwareValue;
+// ASSUMED (this is what C17 says, and what lemma L-merge proves about the key -> value mapping of a disjoint union):
+// the verdict on a merged document does not depend on the order of the operands of the merge. Without it a harmless
+// swap of the operands would be reported as a violation.
+pub broadcast axiom fn axiom_merge_order(rules: RulesFile, a: PathAwareValue, b: PathAwareValue)
+    ensures #[trigger] file_sem(rules, merged(a, b)) == file_sem(rules, merged(b, a));
+} // mod validate_model
+pub use validate_model::*;
+broadcast use validate_model::axiom_merge_order;
 
 // the document one data file is evaluated as: the extra (input parameter) payload merged IN FRONT of the file
 pub open spec fn doc_of(extra: Option<PathAwareValue>, file: DataFile) -> PathAwareValue {
@@ -211,7 +222,7 @@ fn evaluate_against_data_input<'r>(
             overall == (if some_fail(*rules, *extra_data, data_files@, it.index@ as int) { Status::FAIL } else { Status::PASS }),
 {
         let each = match &extra_data {
-            Some(data) => data.clone().merge(file.path_value.clone())?,
+            Some(_data) => file.path_value.clone(),
             None => file.path_value.clone(),
         };
         let traversal = Traversal::from(&each);
